@@ -13,6 +13,9 @@ import numpy as np
 from .. import gen
 from . import _train
 
+# wrong-typed values that are falsy: "dict or None" does not mean "anything that tests false"
+FALSY_NON_DICT = [[], (), "", 0, 0.0, False]
+
 ID = "C16"
 NATIVE = True
 RULE = ("one hyperparameter at a time set to a probe value, everything else valid, for the 18 estimators, the 7 GEMINI "
@@ -68,17 +71,17 @@ def spec_for(name):
                        ["foo", "MMD_OVA", 3, BAD_TYPE])
     if name in gen.MMD_VARIANTS:
         s["kernel"] = (KERN_OK + [_cb], ["gaussian", 3, None])
-        s["kernel_params"] = ([None, {}], ["gamma=1", 3, [1]])
+        s["kernel_params"] = ([None, {}], ["gamma=1", 3, [1]] + FALSY_NON_DICT)
         s["ovo"] = ([True, False], ["yes", None])
     if name in gen.WASS_VARIANTS:
         s["metric"] = (METRIC_OK, ["minkowski3", "haversine", "nan_euclidean", 5, None])
-        s["metric_params"] = ([None, {}], ["p=1", 3, [1]])
+        s["metric_params"] = ([None, {}], ["p=1", 3, [1]] + FALSY_NON_DICT)
         s["ovo"] = ([True, False], ["yes", None])
     if name in ("RIM", "KernelRIM"):
         s["reg"] = ([0, 0.0, 0.1, 5, np.float64(0.5)], [-0.1, "0.1", None])
     if name == "KernelRIM":
         s["base_kernel"] = (["linear", "rbf", "poly", "laplacian", "cosine", "sigmoid", _cb], ["precomputed", "foo", None, 3])
-        s["base_kernel_params"] = ([None, {}], ["gamma=1", 3])
+        s["base_kernel_params"] = ([None, {}], ["gamma=1", 3] + FALSY_NON_DICT)
     if name in gen.MLP_LIKE:
         s["n_hidden_dim"] = ([1, 2, 7], [0, -2, 2.5, None, "4"])
     if name in gen.SPARSE:
@@ -269,9 +272,9 @@ def run_case(case, ctx, st):
             "ChiSquareGEMINI": {"ovo": ([True, False], ["yes", None]), "epsilon": ([1e-12, 0.5], [0, 1, 2.0, None])},
             "MI": {"epsilon": ([1e-12, 0.5], [0, 1, -0.1, "x", None])},
             "MMDGEMINI": {"ovo": ([True, False], ["yes", None]), "kernel": (KERN_OK + ["chi2", "additive_chi2", _cb], ["gaussian", 3, None]),
-                          "kernel_params": ([None, {}, {"gamma": 0.5}], ["gamma", 3]), "epsilon": ([1e-12, 0.5], [0, 1, None])},
+                          "kernel_params": ([None, {}, {"gamma": 0.5}], ["gamma", 3] + FALSY_NON_DICT), "epsilon": ([1e-12, 0.5], [0, 1, None])},
             "WassersteinGEMINI": {"ovo": ([True, False], ["yes", None]), "metric": (METRIC_OK, ["minkowski3", "haversine", 5, None]),
-                                  "metric_params": ([None, {}], ["p", 3]), "epsilon": ([1e-12, 0.5], [0, 1, None])},
+                                  "metric_params": ([None, {}], ["p", 3] + FALSY_NON_DICT), "epsilon": ([1e-12, 0.5], [0, 1, None])},
         }
         for cname, spec in table.items():
             cls = getattr(gg, cname)
